@@ -5,6 +5,7 @@ user code: condition, truth test, capture, error factory, repr, body, invariant,
 suspension), then re-run once per (crossing x fault kind).  After each faulted call probe calls run in the same
 context and are compared with their pristine-state observations (differential oracle)."""
 import asyncio
+import contextvars
 import itertools
 import json
 
@@ -323,6 +324,12 @@ class Driver:
                                 coro.close()
                                 injected = "closed"
                                 raise GeneratorExit()
+                            if act == "close_elsewhere":
+                                # the suspended call is closed from another context (as happens when a suspended coroutine
+                                # is finalized by the garbage collector, in whatever context that runs)
+                                contextvars.Context().run(coro.close)
+                                injected = "closed"
+                                raise GeneratorExit()
                             injected = ValueError("thrown") if act == "throw_exc" else asyncio.CancelledError("thrown")
                             coro.throw(injected)
                         else:
@@ -421,7 +428,7 @@ def check_scenario(drv, pristine, scen, acc, second=None):
     plans = [("cross", i, kind) for i in range(len(base_trace)) for kind in kinds]
     if CALLS[call][0]:
         plans += [("cross", i, "cancel") for i in range(len(base_trace))]
-        plans += [("susp", k, act) for k in range(nsusp) for act in ("throw_exc", "throw_cancel", "close")]
+        plans += [("susp", k, act) for k in range(nsusp) for act in ("throw_exc", "throw_cancel", "close", "close_elsewhere")]
     for plan in plans:
         def one():
             obj = fresh_obj()
@@ -458,7 +465,7 @@ def check_scenario(drv, pristine, scen, acc, second=None):
             inside_guard = False
             if call == "nest" and plan[0] == "cross" and "guard" in base_trace and "body:nest" in base_trace:
                 inside_guard = base_trace.index("guard") < plan[1] < base_trace.index("body:nest")
-            if plan[2] == "close":
+            if plan[2] in ("close", "close_elsewhere"):
                 pass  # closing returns nothing to the caller; only the re-arming is judged
             elif inside_guard:
                 # the user's own guard (inside a condition) catches whatever its inner checked call raises:
@@ -604,6 +611,122 @@ def check_body_differential(acc):
         core.unload_source(ns)
 
 
+# ---------------------------------------------------------------------------------------------
+# stack exhaustion: a checked call made with every small amount of stack headroom left; wherever the RecursionError strikes
+# (inside user code or inside the library itself), the next call must be checked as in a fresh process
+
+HEADROOMS = list(range(1, 90))
+
+
+def check_stack_headroom(drv, pristine, acc, only=None):
+    import sys
+    ns = drv.ns
+
+    def at_depth(fn, headroom):
+        # run fn with exactly ``headroom`` frames left
+        def depth():
+            f = sys._getframe()
+            n = 0
+            while f is not None:
+                n += 1
+                f = f.f_back
+            return n
+        old = sys.getrecursionlimit()
+        sys.setrecursionlimit(max(depth() + headroom, 20))
+        try:
+            return fn()
+        finally:
+            sys.setrecursionlimit(old)
+
+    for call, (is_async, conds) in CALLS.items():
+        if only is not None and call != only:
+            continue
+        for falsy in [None] + conds[:1]:
+            outcomes = set()
+            for h in HEADROOMS:
+                def one():
+                    ns["T"].clear()
+                    ns["FAULT"]["armed"] = False
+                    obj = ns["K"](ns["Arg"]())
+                    try:
+                        res = at_depth(lambda: drv.run(call, obj, falsy), h)
+                        outcome = summarize(res[1])
+                    except RecursionError:
+                        outcome = ("exc", "RecursionError")
+                    ns["FAULT"]["armed"] = False
+                    return outcome, probes(drv, obj)
+                outcome, obs = core.fresh_ctx_run(one)
+                outcomes.add(outcome)
+                acc.case(("headroom", call, falsy, h), True, sum(len(o[2]) for o in obs), outcome)
+                if obs != pristine:
+                    a, b = next((a, b) for a, b in zip(pristine, obs) if a != b)
+                    acc.violation(core.Violation(
+                        PROP, "not_rearmed", {"call": call, "falsy": falsy, "plan": "headroom", "kind": "RecursionError", "headroom": h},
+                        "after {}(falsy={}) was called with {} stack frames left (it ended with {}): probe {}(falsy={}) pristine trace/outcome "
+                        "{} {} but now {} {}".format(call, falsy, h, outcome, a[0], a[1], list(a[2]), a[3], list(b[2]), b[3]),
+                        spec={"headroom": [call, falsy, h]}, script=SRC))
+                    break
+            else:
+                if ("exc", "RecursionError") not in outcomes or len(outcomes) < 2:
+                    raise RuntimeError("harness: the headroom sweep for {} does not span both the exhausted and the sufficient stack: {}".format(call, outcomes))
+    acc.sample({"stack_headroom": [HEADROOMS[0], HEADROOMS[-1]], "calls": sorted(CALLS)}, cap=1)
+
+
+# ---------------------------------------------------------------------------------------------
+# a class checked through __new__ (no constructor) whose construction is faulted in the invariant phase while the instance
+# lives on (the flyweight keeps it in its cache): the instance must be checked like any other afterwards
+
+def check_flyweight(drv, acc):
+    ns = drv.ns
+
+    def observe(plan):
+        def go():
+            ns["T"].clear()
+            ns["CACHE"].clear()
+            F = ns["FAULT"]
+            F.update({"at": None, "kind": None, "count": 0, "obj": None, "armed": False})
+            del ns["TRACE"][:]
+            if plan is not None:
+                if plan[0] == "falsy":
+                    ns["T"]["fw"] = False
+                else:
+                    F.update({"at": plan[0], "kind": plan[1], "armed": True})
+            try:
+                ns["FW"]("k")
+                first = "ret"
+            except BaseException as e:  # noqa
+                first = type(e).__name__
+            F["armed"] = False
+            ns["T"].clear()
+            construction = tuple(ns["TRACE"])
+            o = ns["CACHE"].get("k")
+            if o is None:
+                return first, construction, None
+            obs = [ns["_trace_of"](o.pub), ns["_trace_of"](lambda: ns["FW"]("k")), ns["_trace_of"](o.pub)]
+            ns["T"]["fw"] = False
+            obs.append(ns["_trace_of"](o.pub))
+            ns["T"].clear()
+            return first, construction, obs
+        return core.fresh_ctx_run(go)
+    first0, construction0, pristine = observe(None)
+    if first0 != "ret" or pristine is None or len(construction0) < 2:
+        raise RuntimeError("harness: the fault-free flyweight construction is not as expected: {} {}".format(first0, construction0))
+    plans = [(i, kind) for i in range(len(construction0)) for kind in KINDS] + [("falsy", None)]
+    for plan in plans:
+        first, construction, obs = observe(plan)
+        acc.case(("flyweight", plan), True, len(construction) + sum(len(o[0]) for o in (obs or [])), first)
+        if first == "ret":
+            acc.violation(core.Violation(PROP, "fault_lost", {"call": "FW", "plan": "flyweight", "kind": plan[1] or "falsy", "at": plan[0]},
+                                         "constructing FW('k') with the fault {} ended normally".format(plan), spec={"flyweight": list(plan)}, script=SRC))
+        elif obs is not None and obs != pristine:
+            a, b = next((a, b) for a, b in zip(pristine, obs) if a != b)
+            acc.violation(core.Violation(
+                PROP, "not_rearmed", {"call": "FW", "plan": "flyweight", "kind": plan[1] or "falsy", "at": plan[0]},
+                "after the construction FW('k') was faulted with {} in its invariant phase (outcome {}), the cached instance is observed "
+                "{} where an instance constructed without a fault gives {}".format(plan, first, b, a), spec={"flyweight": list(plan)}, script=SRC))
+    acc.sample({"flyweight_plans": len(plans)}, cap=1)
+
+
 def work(chunk):
     acc = core.Acc()
     if any(item == "body_differential" for item in chunk):
@@ -618,6 +741,13 @@ def work(chunk):
     if any(item == "library_endings" for item in chunk):
         check_library_endings(drv, pristine, acc)
         chunk = [item for item in chunk if item != "library_endings"]
+    if any(item == "flyweight" for item in chunk):
+        check_flyweight(drv, acc)
+        chunk = [item for item in chunk if item != "flyweight"]
+    for item in chunk:
+        if isinstance(item, tuple) and item[0] == "stack_headroom":
+            check_stack_headroom(drv, pristine, acc, only=item[1])
+    chunk = [item for item in chunk if not (isinstance(item, tuple) and item[0] == "stack_headroom")]
     for item in chunk:
         if not isinstance(item[0], tuple):
             check_scenario(drv, pristine, item, acc)
@@ -630,7 +760,7 @@ def work(chunk):
 
 def run(tier, t0):
     sc = scenarios(tier)
-    items = list(sc) + ["body_differential", "library_endings"]
+    items = list(sc) + ["body_differential", "library_endings", "flyweight"] + [("stack_headroom", call) for call in sorted(CALLS)]
     if tier == "thorough":
         # sequences of two faulted calls: the second one faulted at each of its first 6 crossings
         for s in sc:
@@ -644,7 +774,9 @@ def run(tier, t0):
              "error factories, value reprs) x EVERY boundary crossing of the fault-free run (condition, truth test, capture, "
              "error factory, __repr__, body, invariant, constructor, both halves of awaiting conditions/bodies) x fault kind "
              "(ValueError, TypeError, AttributeError, KeyError, BaseException subclass, KeyboardInterrupt; async: CancelledError raised inside, and throw/cancel/close "
-             "at every suspension of a hand-driven coroutine){}; after each: probe calls of every callable (all true + each "
+             "at every suspension of a hand-driven coroutine, the closing also from ANOTHER context){}; every call also with each of 1..89 stack "
+             "frames of headroom left (RecursionError wherever it strikes, also inside the library); construction of a flyweight class checked "
+             "through __new__ faulted at every crossing of its invariant phase while its cache keeps the instance; after each: probe calls of every callable (all true + each "
              "condition falsy) in the same context, compared with the pristine-state observations; the surfaced exception must be "
              "or chain the injected one; non-trivial = every case".format(
                  "; plus all pairs (first faulted call ; second call faulted at one of its first 6 crossings, BaseException and Exception alternating) before the probes" if tier == "thorough" else ""),
@@ -662,6 +794,18 @@ def replay(path):
     pristine = pristine_probes(drv)
     if "body_differential" in data:
         check_body_differential(acc)
+        for v in acc.violations[:5]:
+            print("VIOLATION property={} replay={}".format(PROP, path))
+            print(" ", v.symptom, v.detail[:400])
+        return 1 if acc.violations else 0
+    if "flyweight" in data:
+        check_flyweight(drv, acc)
+        for v in acc.violations[:5]:
+            print("VIOLATION property={} replay={}".format(PROP, path))
+            print(" ", v.symptom, v.detail[:400])
+        return 1 if acc.violations else 0
+    if "headroom" in data:
+        check_stack_headroom(drv, pristine, acc)
         for v in acc.violations[:5]:
             print("VIOLATION property={} replay={}".format(PROP, path))
             print(" ", v.symptom, v.detail[:400])
